@@ -174,8 +174,8 @@ class C07(Prop):
     REAL_VS_STUB = {'real': ['dataflows Flow / checkpoint / stream / unstream / extended_json', 'the file system'], 'stub': ['process environment: TZ set per run; fork per RUN in the fresh configuration']}
     PROBES = ['negative-utc-offset', 'sub-hour-offset', 'duration-value', 'time-value', 'nested-object', 'high-precision-decimal', 'tz-changed-between-runs', 'same-object-config',
               'fresh-config', 'delete-middle-checkpoint', 'resume-after-delete-all', 'three-checkpoints', 'empty-resource', 'mutating-step-after-checkpoint', 'year-below-1000', 'zero-column-rows']
-    TIERS = {'quick': dict(runs=500, wall=100, run_wall=120),
-             'thorough': dict(runs=12000, wall=1700, run_wall=300)}
+    TIERS = {'quick': dict(runs=500, wall=100, run_wall=300),
+             'thorough': dict(runs=12000, wall=1700, run_wall=600)}
     SHRINK_FROZEN = ('fields',)
 
     def generate(self, rng, tier):
